@@ -1269,14 +1269,16 @@ impl<'a> Sim<'a> {
         if !self.ctx.wants(prop) {
             return;
         }
-        let mut own = o.cash;
-        let mut mag = o.cash.abs();
-        for (sym, qty) in &o.holdings {
+        // from the harness's own books (cash and holdings fed by the wire and by returned events, quotes as
+        // delivered), not from what the broker reports about itself
+        let mut own = self.led.cash;
+        let mut mag = self.led.gross + self.led.deposits.abs() + self.led.withdrawals.abs() + self.led.cash.abs();
+        for (sym, qty) in &self.led.holdings {
             if *qty == 0.0 {
                 // not a position: nothing to sell, no fee to pay
                 continue;
             }
-            if let Some(q) = o.quotes.get(sym) {
+            if let Some(q) = self.led.last_quotes.get(sym) {
                 let v = q.0 * *qty;
                 let (net, _) = impact_total(&self.cost_specs, v, q.0, false);
                 own += net;
@@ -1285,8 +1287,8 @@ impl<'a> Sim<'a> {
         }
         rule!(
             self.ctx, prop, "liquidation-value", "cost-model", (o.liq - own).abs() <= 1e-9 * mag.max(1.0),
-            "{when}: the broker's liquidation value is {:?}, but cash {:?} + what the positions {{{}}} fetch at the last seen bids after costs {:?} is {:?}",
-            o.liq, o.cash, fmt_map(&o.holdings), self.cost_specs, own
+            "{when}: the broker's liquidation value is {:?}, but cash {:?} + what the positions {{{}}} fetch at the last delivered bids after costs {:?} is {:?} (cash and positions from the exchange's executions and the cash operations)",
+            o.liq, self.led.cash, fmt_map(&self.led.holdings), self.cost_specs, own
         );
     }
 
